@@ -179,8 +179,118 @@ pub fn judge_adapters(fresh: v2::TypeLengthValues<'_>, section: &[u8], via: &str
     if total > 3000 {
         return; // keep it cheap: each nth() is a walk
     }
+    // the consuming adapters below only terminate if plain iteration does: check that first
+    // (judge_iter reports a walk that does not end; nothing more to learn here then)
+    let finite = guard(|| {
+        let mut it = fresh;
+        for _ in 0..total + 5 {
+            if it.next().is_none() {
+                return true;
+            }
+        }
+        false
+    });
+    if finite != Ok(true) {
+        return;
+    }
     let r = guard(|| {
         let mut bad: Vec<(String, String)> = Vec::new();
+        // the reference walk as (kind, length) pairs, the error item as (0xFFFF, 0)
+        let mut refseq: Vec<(u32, usize)> = want.iter().map(|w| (w.kind as u32, w.len)).collect();
+        if end != TlvEnd::Clean {
+            refseq.push((0xFFFF, 0));
+        }
+        let key = |r: &Result<v2::TypeLengthValue<'_>, v2::ParseError>| -> (u32, usize) {
+            match r {
+                Ok(t) => (t.kind as u32, t.value.len()),
+                Err(_) => (0xFFFF, 0),
+            }
+        };
+        // a partly consumed iterator carries on where it stopped, whichever method drives it
+        let mut ks = vec![1usize, 2, total / 2, total.saturating_sub(1)];
+        ks.retain(|&k| k >= 1 && k <= total);
+        ks.dedup();
+        for k in ks {
+            let adv = || {
+                let mut it = fresh;
+                for _ in 0..k {
+                    let _ = it.next();
+                }
+                it
+            };
+            let rest = &refseq[k..];
+            let c = adv().count();
+            if c != rest.len() {
+                bad.push(("partly-consumed:count".into(), format!("after {} next() calls count() = {}, {} items are left in the reference walk", k, c, rest.len())));
+            }
+            let l = adv().last().map(|r| key(&r));
+            if l != rest.last().copied() {
+                bad.push(("partly-consumed:last".into(), format!("after {} next() calls last() = {:?}, expected {:?}", k, l, rest.last())));
+            }
+            let f = adv().fold(Vec::new(), |mut acc, r| {
+                acc.push(key(&r));
+                acc
+            });
+            if f != rest {
+                bad.push(("partly-consumed:fold".into(), format!("after {} next() calls fold() visits {:?}, expected {:?}", k, &f[..f.len().min(6)], &rest[..rest.len().min(6)])));
+            }
+            let mut seen = Vec::new();
+            adv().for_each(|r| seen.push(key(&r)));
+            if seen != rest {
+                bad.push(("partly-consumed:for_each".into(), format!("after {} next() calls for_each() visits {} items, expected {}", k, seen.len(), rest.len())));
+            }
+            let col: Vec<(u32, usize)> = adv().map(|r| key(&r)).collect();
+            if col != rest {
+                bad.push(("partly-consumed:collect".into(), format!("after {} next() calls collect() gives {} items, expected {}", k, col.len(), rest.len())));
+            }
+            let mut it = adv();
+            let first: Vec<(u32, usize)> = it.by_ref().take(1).map(|r| key(&r)).collect();
+            let after = it.count();
+            if first.len() + after != rest.len() || first.first() != rest.first() {
+                bad.push(("partly-consumed:by_ref".into(), format!("after {} next() calls by_ref().take(1) + count() = {} + {}, expected {} in total", k, first.len(), after, rest.len())));
+            }
+            let mut it = adv();
+            let n1 = it.nth(1).map(|r| key(&r));
+            if n1 != rest.get(1).copied() {
+                bad.push(("partly-consumed:nth".into(), format!("after {} next() calls nth(1) = {:?}, expected {:?}", k, n1, rest.get(1))));
+            }
+            let s1 = adv().skip(1).next().map(|r| key(&r));
+            if s1 != rest.get(1).copied() {
+                bad.push(("partly-consumed:skip".into(), format!("after {} next() calls skip(1).next() = {:?}, expected {:?}", k, s1, rest.get(1))));
+            }
+            let (lo, hi) = adv().size_hint();
+            if lo > rest.len() || hi.map_or(false, |h| h < rest.len()) {
+                bad.push(("partly-consumed:size_hint".into(), format!("after {} next() calls size_hint() = ({}, {:?}), {} items are left", k, lo, hi, rest.len())));
+            }
+        }
+        // fresh iterators: every consumer sees the whole reference walk
+        let col: Vec<(u32, usize)> = fresh.map(|r| key(&r)).collect();
+        if col != refseq {
+            bad.push(("collect".into(), format!("collect() gives {} items, the reference walk has {}", col.len(), refseq.len())));
+        }
+        let f = fresh.fold(0usize, |a, _| a + 1);
+        if f != refseq.len() {
+            bad.push(("fold".into(), format!("fold() visits {} items, the reference walk has {}", f, refseq.len())));
+        }
+        let (lo, hi) = fresh.size_hint();
+        if lo > refseq.len() || hi.map_or(false, |h| h < refseq.len()) {
+            bad.push(("size_hint".into(), format!("size_hint() = ({}, {:?}), the reference walk has {} items", lo, hi, refseq.len())));
+        }
+        // skip(k) then the rest, take(k) then skip(k): together the whole walk, nothing twice
+        for k in [1usize, total.saturating_sub(1), total] {
+            if k <= total {
+                let a: Vec<(u32, usize)> = fresh.take(k).map(|r| key(&r)).collect();
+                let b: Vec<(u32, usize)> = fresh.skip(k).map(|r| key(&r)).collect();
+                if a.len() + b.len() != refseq.len() || a[..] != refseq[..a.len().min(refseq.len())] || b[..] != refseq[refseq.len() - b.len().min(refseq.len())..] {
+                    bad.push(("take+skip".into(), format!("take({}) gives {} items and skip({}) gives {}, the reference walk has {}", k, a.len(), k, b.len(), refseq.len())));
+                }
+                let st: Vec<(u32, usize)> = fresh.step_by(k.max(1)).map(|r| key(&r)).collect();
+                let want_st: Vec<(u32, usize)> = refseq.iter().copied().step_by(k.max(1)).collect();
+                if st != want_st {
+                    bad.push(("step_by".into(), format!("step_by({}) gives {} items, expected {}", k.max(1), st.len(), want_st.len())));
+                }
+            }
+        }
         let n = fresh.count();
         if n != total {
             bad.push(("count".into(), format!("count() = {}, the reference walk has {} items (error item included)", n, total)));
